@@ -36,7 +36,7 @@ pub fn expect_client(ca: &ClientAbuse, h2: &H2Knobs, buffer_size: u64) -> Expect
         Kind::LenMismatch { .. } => Expect::Any,
         Kind::RBit { what, .. } => if what == "partial_preface" { Expect::Ends } else { Expect::Tolerated },
         Kind::RapidReset { count, .. } => framing(classify_rapid_reset(*count, h2.rst_window, h2.abusive_rst)),
-        Kind::ContFlood { count, frag_len, finish } => {
+        Kind::ContFlood { count, frag_len, finish, .. } => {
             // the block must also fit sozu's documented header budget to be served
             let bytes = *count as u64 * (*frag_len as u64 + 9);
             if *count <= h2.continuation && bytes + 200 > (h2.header_list as u64).min(buffer_size / 2) { Expect::Any } else { classify_continuation_flood(*count, h2.continuation, *finish) }
